@@ -17,8 +17,8 @@ from ..tlc import validate_traces
 TIERS = {
     "quick": dict(char=[("num", 3), ("op", 3), ("str", 4), ("indent", 4), ("xonsh", 3), ("all", 2)], soup=(24, 40),
                   lex=3, variants=1, corpus_cap=60),
-    "thorough": dict(char=[("num", 5), ("op", 4), ("str", 5), ("indent", 6), ("xonsh", 4), ("all", 3), ("py", 4)],
-                     soup=(40, 400), lex=4, variants=3, corpus_cap=100000),
+    "thorough": dict(char=[("num", 5), ("op", 3), ("str", 5), ("indent", 5), ("xonsh", 4), ("all", 3), ("py", 4)],
+                     soup=(40, 400), lex=4, variants=1, corpus_cap=100000),
 }
 
 
